@@ -10,10 +10,14 @@
        fix_goal_arity  parse_goal_state rejects a fluent with a wrong number of arguments in a numeric goal (D19b)
        fix_positional  parse_grounded_numeric_fluent type-checks argument i against parameter i (D19c); the pinned
                        code zips the DE-DUPLICATED arguments against the signature (mis-aligned under repeats)
+       fix_apps        construct_expression_tree rejects a function application with a wrong number of arguments or
+                       a repeated argument (/repo c7c8534, proposed by the C01 builder as D46); Model/NumExpr.v (C12,
+                       shared) does not have this check yet, hence the local copy [pconstruct] below
    NOT repaired and reproduced here (finding D07): the signature of a grounded PDDLFunction is a dict keyed by
-   object name, so repeated arguments collapse: the fluent is stored under "(f <distinct arguments>)" and printed
-   with the repeated names first; numeric goals lose repeated arguments altogether.  Numeric goals check neither
-   that their arguments are declared nor their types (finding D19d).
+   object name, so repeated arguments collapse: an initial fluent is stored under "(f <distinct arguments>)" and
+   printed with the repeated names first; a numeric goal over a fluent with a repeated argument is rejected
+   (with fix_apps; before, the repetition was dropped).  Numeric goals check neither that their arguments are
+   declared nor their types (finding D19d).
 
    Representation choices (injective abstractions of the library's string keys):
      initial_state_predicates  dict "(p ?a ?b)" -> set    ~ pydict keyed by the predicate NAME (one lifted form
@@ -32,9 +36,9 @@ Import ListNotations.
 Open Scope string_scope.
 Open Scope list_scope.
 
-Record pcfg := { fix_untyped : bool; fix_goal_arity : bool; fix_positional : bool }.
-Definition cfg_pinned : pcfg := {| fix_untyped := false; fix_goal_arity := false; fix_positional := false |}.
-Definition cfg_fixed : pcfg := {| fix_untyped := true; fix_goal_arity := true; fix_positional := true |}.
+Record pcfg := { fix_untyped : bool; fix_goal_arity : bool; fix_positional : bool; fix_apps : bool }.
+Definition cfg_pinned : pcfg := {| fix_untyped := false; fix_goal_arity := false; fix_positional := false; fix_apps := false |}.
+Definition cfg_fixed : pcfg := {| fix_untyped := true; fix_goal_arity := true; fix_positional := true; fix_apps := true |}.
 
 (* ---------- object model ---------- *)
 Definition fkey := (string * list string)%type.
@@ -153,6 +157,58 @@ Fixpoint forall2b {A B} (f : A -> B -> bool) (a : list A) (b : list B) : bool :=
   | x :: xs, y :: ys => f x y && forall2b f xs ys
   | _, _ => true
   end.
+
+(* ---------- numerical_expression.construct_expression_tree (current /repo) ----------
+   NumExpr.construct with strict arity of operators (fix D08) and, with [check_apps], the check of function
+   applications of /repo c7c8534 *)
+Section PConstruct.
+  Variable check_apps : bool.
+  Variable pn : string -> option float.
+  Variable funcs : domain_functions.
+
+  Definition pconstruct_flat (strs : list string) : result ntree :=
+    match strs with
+    | [] => Err EIndex
+    | h :: args =>
+        if str_in h LEGAL_NUMERIC_OPERATORS then construct_flat true pn funcs strs
+        else
+          match alookup h funcs with
+          | None => Err EKey
+          | Some sig =>
+              if check_apps && (negb (Nat.eqb (List.length args) (List.length sig)) || has_dup args) then Err EValue
+              else
+                match args with
+                | [] => Ok (NFl {| nf_name := h; nf_params := sig |})
+                | _ => Ok (NFl {| nf_name := h; nf_params := NumExpr.dedup_keys [] (firstn (List.length sig) args) |})
+                end
+          end
+    end.
+
+  Fixpoint pconstruct (e : sexp) : result ntree :=
+    match e with
+    | Atom s => construct_atom pn s
+    | SList l =>
+        match NumExpr.all_atoms l with
+        | Some strs => pconstruct_flat strs
+        | None =>
+            if negb (Nat.eqb (List.length l) 3) then Err ESyntax else
+            match l with
+            | h :: a :: rest =>
+                do x <- pconstruct a;
+                match rest with
+                | b :: _ =>
+                    do y <- pconstruct b;
+                    match h with
+                    | Atom op => Ok (NBin op x y)
+                    | SList _ => Err EOther
+                    end
+                | [] => Err EIndex
+                end
+            | _ => Err EIndex
+            end
+        end
+    end.
+End PConstruct.
 
 Section Parser.
   Variable cfg : pcfg.
@@ -290,7 +346,7 @@ Section Parser.
     else
       if fix_goal_arity cfg && negb (goal_arity_ok e) then Err EValue
       else
-        do t <- NumExpr.construct true num funcs_keys e;
+        do t <- pconstruct (fix_apps cfg) num funcs_keys e;
         Ok (with_goal pb (pb_goal pb) (pb_goal_num pb ++ [t])).
 
   Definition parse_goal_state (pb : mproblem) (g : sexp) : result mproblem :=
